@@ -384,6 +384,11 @@ impl Walrus {
                 };
                 let mut in_block_off: u64 = 0;
                 loop {
+                    // no room for another entry header: do not read past the block (for
+                    // the last block of a file that is past the end of the file)
+                    if in_block_off + PREFIX_META_SIZE as u64 > block_limit {
+                        break;
+                    }
                     match block_stub.read(in_block_off) {
                         Ok((_entry, consumed)) => {
                             used += consumed as u64;
